@@ -221,8 +221,11 @@ func c18Exec(c *Ctx, op string) string {
 				Spec: v1beta1.PodENISpec{Zone: f[6], Allocations: []v1beta1.Allocation{{IPv4: "10.0.0.5"}}}})
 		}
 		if f[10] != "-" {
-			p := strings.SplitN(f[10], ":", 2)
+			p := strings.SplitN(f[10], ":", 3)
 			conf := map[string]any{"version": "1", "security_groups": lstTok(p[1])}
+			if len(p) == 3 {
+				conf["security_group"] = p[2] // the legacy single-group field, merged into the effective set
+			}
 			if v := lstTok(p[0]); len(v) > 0 {
 				conf["vswitches"] = map[string][]string{"zone-x": v}
 			}
@@ -479,7 +482,8 @@ func c18Run(c *Ctx) {
 		if fixedName && r.Chance(30) {
 			prev = Pick(r, zones)
 		}
-		cluster := Pick(r, []string{"vsw-9:sg-9", "vsw-9,vsw-8:sg-8,sg-9", "vsw-9:sg-9", "-:sg-9", "-"})
+		cluster := Pick(r, []string{"vsw-9:sg-9", "vsw-9,vsw-8:sg-8,sg-9", "vsw-9:sg-9", "-:sg-9", "-", "vsw-9:sg-9:sg-1", "vsw-9:sg-9:sg-9",
+			"vsw-9:s0,s1,s2,s3,s4,s5,s6,s7,s8,s9", "vsw-9:s0,s1,s2,s3,s4,s5,s6,s7,s8,s9:s9", "vsw-9:s0,s1,s2,s3,s4,s5,s6,s7,s8,s9:legacy", "vsw-9:s0,s1,s2,s3,s4,s5,s6,s7,s8,s9,sa"})
 		cont := fmt.Sprint(Pick(r, []int{1, 1, 2, 0}))
 		if cont != "0" && r.Chance(20) {
 			cont += fmt.Sprintf("r%d", 1+r.Intn(4)) // the template declares the device resources itself
